@@ -73,8 +73,16 @@ pub fn port() -> impl Strategy<Value = u16> {
         1 => Just(65535u16),
         1 => Just(65534u16),
         3 => prop::sample::select(vec![22u16, 53, 80, 111, 139, 443, 445, 3478, 8080, 1]),
+        3 => prop::sample::select(WELL_KNOWN_PORTS.to_vec()),
     ]
 }
+
+/// ports with an assigned service that software is apt to special-case (IANA registry: simple
+/// services, name services, RPC, directory, VoIP, proxies, databases, ...)
+pub const WELL_KNOWN_PORTS: [u16; 64] = [
+    7, 9, 13, 17, 19, 20, 21, 23, 25, 37, 67, 68, 69, 79, 88, 110, 113, 119, 123, 135, 137, 138, 143, 161, 162, 179, 389, 427, 465, 500, 512, 513, 514, 515, 520, 554, 587, 631, 636, 873, 993, 995, 1080, 1194, 1433,
+    1521, 1723, 1883, 1900, 2049, 2222, 3128, 3306, 3389, 4500, 5060, 5353, 5355, 5432, 5900, 6379, 8443, 8888, 11211,
+];
 
 pub fn logger_kind() -> impl Strategy<Value = LoggerKind> {
     prop_oneof![
